@@ -6,3 +6,4 @@ pub fn c02(_ctx: &Ctx) {}
 pub fn c15(_ctx: &Ctx) {}
 pub fn c16(_ctx: &Ctx) {}
 pub fn c19(_ctx: &Ctx) {}
+pub fn c17(_ctx: &Ctx) {}
